@@ -38,7 +38,6 @@ import functools
 import json
 import os
 import pathlib
-import re
 import sys
 import time
 import traceback
